@@ -1008,6 +1008,12 @@ def targeted():
                           "q.ddp": 'Binde f aus "p2" ein.\n' + fn("q", "mach q", "x").replace('Schreibe "x" auf eine Zeile.', "tu es."),
                           "main.ddp": 'Binde f aus "p1" ein.\nBinde q aus "q" ein.\nBinde n2 aus "p2" ein.\nBinde "p3" ein.\ntu es.\nmach q.\nmach drei.\n'},
                 "main": "main.ddp", "expected": ["p1.f", "p2.f", "p3.f"], "tags": ["same public function name in two modules, private in a third"]})
+    # an import statement inside a function body: the module is still initialised exactly once, however often the function runs
+    m_init = DUDEN + 'Die öffentliche Funktion melde mit den Parametern t und n vom Typ Text und Zahl, gibt eine Zahl zurück, macht:\n\tSchreibe t auf eine Zeile.\n\tGib n zurück.\nUnd kann so benutzt werden:\n\t"melde <t> mit <n>"\n'
+    out.append({"kind": "plain", "name": "t-import-inside-function-body",
+                "files": {"melde.ddp": m_init, "m.ddp": 'Binde "melde" ein.\nDie öffentliche Zahl wert ist melde "init m" mit 1.\n',
+                          "main.ddp": DUDEN + schreibe("start") + 'Die Funktion tu gibt nichts zurück, macht:\n\tBinde "m" ein.\n\tSchreibe wert auf eine Zeile.\nUnd kann so benutzt werden:\n\t"tu es"\ntu es.\ntu es.\n'},
+                "main": "main.ddp", "expected": ["start", "init m", "1", "1"], "alt_expected": [["init m", "start", "1", "1"]], "tags": ["import statement inside a function body"]})
     # file and directory names that are not identifiers (symbol names are derived from the path)
     odd = [("m-1", "a"), ("d 1/m 2", "b"), ("mä", "c"), ("m.x", "d"), ("m'q", "e")]
     files = {"main.ddp": "".join('Binde "%s" ein.\n' % n for n, _ in odd) + "".join("ruf %s.\n" % t for _, t in odd)}
